@@ -14,7 +14,7 @@ def harnesses(world, tier, seed):
          'all Instant::now() readings within one cache operation are equal', 'eviction order is judged on the last_read instants the cache records (kept consistent with the access queue by the invariant check)')
     if q:
         hs = [H(name='prune-history-4ops', k=4, nnames=2, qtypes=(255,), maxgap=2, ttls=(0, 1, 2, 1000), ops_at=[('ins',), ('ins', 'get'), ('ins', 'get', 'prune'), ('prune', 'get')],
-                bounds=dict(common, operations='4: ins ; ins|get ; ins|get|prune ; prune|get', ttl='symbolic over {0,1,2,1000} s', gaps='g symbolic 0..2'), assumptions=A, expected_classes=('ins ins ins prune', 'ins ins prune prune', 'ins get ins prune'))]
+                bounds=dict(common, operations='4: ins ; ins|get ; ins|get|prune ; prune|get', ttl='symbolic over {0,1,2,1000} s', gaps='g symbolic 0..2'), assumptions=A, expected_classes=('ins ins ins prune', 'ins ins prune prune', 'ins get ins prune'), hash_orders=False)]
         hs.append(H(name='same-type-expiry-order', k=5, nnames=1, datas=(0, 1, 3), qtypes=(255,), maxgap=3, ttls=(1, 2, 3, 1000), ops_at=[('ins',), ('ins',), ('ins',), ('prune',), ('prune',)],
                     bounds=dict(common, operations='5: ins ; ins ; ins ; prune ; prune', names=1, data='three A records of one name', ttl='symbolic over {1,2,3,1000} s', gaps='g symbolic 0..3'), assumptions=A,
                     expected_classes=('ins ins ins prune prune',)))
